@@ -681,7 +681,7 @@ inline model::MLib library(Rng& r, const Cfg& cfg) {
         int nl = r.chance(0.5) ? (int)r.range(0, cfg.max_elems / 2) : 0;
         int nr = (i + 1 < ncell || !m.ext_cells.empty()) && r.chance(0.7) ? (int)r.range(0, cfg.max_elems / 2) : 0;
         for (int k = 0; k < np; k++) {
-            bool big = cfg.big_polygons && !big_done && r.chance(0.02);
+            bool big = cfg.big_polygons && !big_done && r.chance(0.1);
             cell.polys.push_back(polygon(c, big));
             if (cell.polys.back().pts.size() > 8190) big_done = true;
         }
